@@ -224,8 +224,15 @@ fn check_adopt_constraint(op: &Op, pre: &Model, post: &Model, ret: Option<Lid>) 
             if !d.created.is_empty() {
                 return Err(foreign(format!("remove_insignificant_whitespace created nodes {:?}", d.created)));
             }
+            // what the call removes: whitespace-only text below (or at) the argument. With adjacent text
+            // nodes around (left from a time without consolidation) the removal of such a node between
+            // two text nodes merges the later into the earlier one, as any removal does: the later one
+            // dies too, the earlier one changes its value
+            let removed_ws = |l: Lid| in_sub(*n, l) && matches!(&pre.n(l).kind, Kind::Text(t) if t.chars().all(|c| c.is_whitespace()));
+            let absorbed = |l: Lid| pre.cons && pre.is_text(l) && pre.prev_kid(l).map_or(false, |pv| pre.is_text(pv) && d.died.contains(&pv) && removed_ws(pv));
+            let absorbing = |l: Lid| pre.cons && pre.is_text(l) && pre.next_kid(l).map_or(false, |nx| d.died.contains(&nx) && removed_ws(nx));
             for l in &d.died {
-                let ok = in_sub(*n, *l) && matches!(&pre.n(*l).kind, Kind::Text(t) if t.chars().all(|c| c.is_whitespace()));
+                let ok = removed_ws(*l) || absorbed(*l);
                 if !ok {
                     return Err(foreign(format!(
                         "remove_insignificant_whitespace removed {:?} ({:?})",
@@ -236,7 +243,7 @@ fn check_adopt_constraint(op: &Op, pre: &Model, post: &Model, ret: Option<Lid>) 
             }
             for l in &d.changed {
                 // the node itself may be the removed text: then its parent's child list changes
-                let ok_place = in_sub(*n, *l) || pre.n(*n).parent == Some(*l);
+                let ok_place = in_sub(*n, *l) || pre.n(*n).parent == Some(*l) || absorbing(*l) || d.died.iter().any(|x| pre.n(*x).parent == Some(*l));
                 let same_kind = pre.n(*l).kind == post.n(*l).kind
                     || (pre.is_text(*l) && post.is_text(*l));
                 if !ok_place || !same_kind {
